@@ -28,23 +28,24 @@ struct Backend {
         return k;
     }
     std::set<char*> ever;               // for telling double free from foreign free
-    long fail_at = 0; uint64_t calls = 0; uint64_t failed = 0; size_t live_bytes = 0;
+    long fail_at = 0; uint64_t calls = 0; uint64_t failed = 0; size_t live_bytes = 0; size_t skew = 0;
     static const size_t LIMIT = (size_t)1 << 20, TOTAL = (size_t)1 << 22;   // refuses single requests above 1 MiB and more than 4 MiB in total
     static void* b_malloc(UriMemoryManager* m, size_t n) {
         Backend* b = self(m, "malloc"); b->calls++;
         if (b->fail_at && (long)b->calls == b->fail_at) { b->failed++; errno = ENOMEM; return nullptr; }
         if (n > LIMIT || b->live_bytes + n > TOTAL) { b->failed++; errno = ENOMEM; return nullptr; }
-        char* p = (char*)raw_malloc(n ? n : 1); if (!p) return nullptr;
+        char* raw = (char*)raw_malloc((n ? n : 1) + b->skew); if (!raw) return nullptr;
+        char* p = raw + b->skew;           // a backend need not hand out 16-aligned blocks (a bump allocator with 8-byte granularity, a length prefix of its own)
         memset(p, 0xC7, n); b->live_bytes += n; b->live[p] = n; b->ever.insert(p); b->mallocs++; return p;
     }
     static void b_free(UriMemoryManager* m, void* q) {
         Backend* b = self(m, "free"); char* p = (char*)q;
         auto it = b->live.find(p);
         if (it == b->live.end()) { if (b->ever.count(p)) b->double_free++; else b->foreign_free++; if (b->note.empty()) b->note = fmt("backend free(%p): %s", q, b->ever.count(p) ? "already released" : "never returned by backend malloc"); return; }
-        memset(p, 0xDD, it->second); b->live_bytes -= it->second; b->live.erase(it); b->frees++; raw_free(p);
+        memset(p, 0xDD, it->second); b->live_bytes -= it->second; b->live.erase(it); b->frees++; raw_free(p - b->skew);
     }
     Backend() { memset(&mm, 0, sizeof mm); mm.malloc = b_malloc; mm.free = b_free; mm.userData = this; backends().insert(this); }
-    ~Backend() { for (auto& kv : live) raw_free(kv.first); backends().erase(this); }
+    ~Backend() { for (auto& kv : live) raw_free(kv.first - skew); backends().erase(this); }
 };
 
 struct Block { size_t size; unsigned char pat; };
@@ -74,6 +75,8 @@ static bool wrapping_pair(Rng& r, size_t* a, size_t* b) {
 static void run_case(Ctx& c, uint64_t idx) {
     Rng& r = c.rng;
     Backend be; UriMemoryManager mm; memset(&mm, 0, sizeof mm);
+    be.skew = (idx % 4 == 3) ? 8 : 0;      // backend blocks at 16n or at 16n + 8 (still aligned for the size header the wrapper keeps; less would break malloc's own contract)
+    if (be.skew) c.count("backend_blocks_not_16_aligned");
     int rc0 = uriCompleteMemoryManager(&mm, &be.mm);
     if (rc0 != URI_SUCCESS) { c.violation("C15", "alloc/complete-failed", fmt("rc=%d", rc0)); return; }
     if (idx % 64 == 0) {
